@@ -18,7 +18,15 @@
    known = the trigger of a known finding holds (for finding 5 also: the observed sentences are the
            intended ones with exactly the clause texts of the triggering entries cut at their first
            period-white-space pair; for finding 6 also: the raw sentences are what the text-layer model
-           returns on the printed text; for finding 7 also: structure raised ValueError).
+           returns on the printed text; for finding 7 also: structure raised ValueError; for finding 8
+           also: the observed forest's first tree is rooted at the first printed entry, or structure
+           raised ValueError because a REDEFINES clause below that entry finds no unique sibling there
+           while the copybook without its 66/77/88 entries has none unresolved).
+   For a copybook whose FIRST entry has level 66, 77 or 88 (finding 8) good demands what the property
+   says - level 66/77/88 entries contribute nothing, the first one included: the forest and the schemas
+   are those of the copybook without its 66/77/88 entries (none at all, or an error, when nothing else
+   is left), the forest is the one the specification demands of those entries, and a well-formed rest
+   ends in no error.  The code keeps the first entry as a tree whatever its level.
    For a copybook whose REDEFINES targets name exactly one earlier sibling up to letter case but not
    exactly (finding 7), good demands instead that nothing raises, that the forest is the one the
    specification demands and that the schemas define every kept entry once, nested as the forest
@@ -78,10 +86,12 @@ Fixpoint entries_sim_tail (a b : list entry) : bool :=
   | x :: a', y :: b' => entry_sim x y && entries_sim_tail a' b'
   | _, _ => false
   end.
+(* the first entry is compared in full unless it is itself a 66/77/88 entry (known finding 8: it is
+   kept as a node; what the property wants of it is that it contributes nothing, like the later ones) *)
 Definition entries_sim (a b : list entry) : bool :=
   match a, b with
   | [], [] => true
-  | x :: a', y :: b' => entry_eqb x y && entries_sim_tail a' b'
+  | x :: a', y :: b' => (if is_skip_level x then entry_sim x y else entry_eqb x y) && entries_sim_tail a' b'
   | _, _ => false
   end.
 
@@ -338,6 +348,21 @@ Definition spec_holds (kept : list dde) (obs_f : list tree) : bool :=
   && sx_eqb (L (map (fun o => match o with None => L [] | Some i => L [of_nat i] end) (parents obs_f)))
             (L (map (fun o => match o with None => L [] | Some i => L [of_nat i] end) (spec_parents K))).
 
+(* Known finding 8: the first entry is a node whatever its level.
+   Trigger: the first printed entry has level 66, 77 or 88.  The finding's own behaviour: structure
+   returned and the first tree of the observed forest is rooted at that entry (same level, same text). *)
+Definition first_special (l : list entry) : bool :=
+  match l with e :: _ => is_skip_level e | [] => false end.
+Definition first_root_is (e : entry) (oforest : sx) : bool :=
+  match as_list (nth_sx 1 oforest) with
+  | t :: _ => lvl_eqb (as_lvl (nth_sx 0 t)) (elv e) && str_eqb (as_str (nth_sx 4 t)) (etext e)
+  | [] => false
+  end.
+(* the DDE objects the property wants in the forest: every entry of level other than 66/77/88
+   (the numbering of generated names is that of the whole copybook, as for later 66/77/88 entries) *)
+Definition wanted_ddes (l : list entry) : list dde :=
+  filter (fun d => negb (is_skip_level (de d))) (mk_ddes 0 l).
+
 Definition judge (c : sx) : sx :=
   let text := as_Ns (nth_sx 0 c) in
   let isx := as_list (nth_sx 1 c) in
@@ -380,7 +405,34 @@ Definition judge (c : sx) : sx :=
         then sx_eqb (sx_upper (L (map (fun x => skel (snode_of_sx x)) (as_list (nth_sx 1 oschema)))))
                     (sx_upper (L (map skel_tree nf)))
         else true) in
-  let good := layerA && (if k7 then good7 else forest_ok && spec_ok && schema_ok && wf_ok) in
+  (* finding 8: the copybook without its 66/77/88 entries, the first one included *)
+  let k8 := first_special intended in
+  let K := wanted_ddes intended in
+  let want_f : res (list tree) := match K with [] => Ok [] | _ => structure_ddes K end in
+  let want_s : res (list snode) := match want_f with Ok f => build_all f | Err e => Err e end in
+  let wforest := match want_f with Ok f => f | Err _ => [] end in
+  let good8 :=
+    match K with
+    | [] => (negb (res_ok_sx oforest) || sx_eqb oforest (sx_forest (Ok [])))
+            && (negb (res_ok_sx oschema) || sx_eqb oschema (sx_schemas (Ok [])))
+    | _ :: _ =>
+        sx_eqb oforest (sx_forest want_f) && sx_eqb oschema (sx_schemas want_s)
+        && (match want_f with
+            | Err _ => true
+            | Ok _ => res_ok_sx oforest && spec_holds K (map obs_tree (as_list (nth_sx 1 oforest)))
+            end)
+        && (if is_ok want_f && wf_copybook (map de K) wforest
+            then res_ok_sx oforest && res_ok_sx oschema
+                 && sx_eqb (L (map (fun x => skel (snode_of_sx x)) (as_list (nth_sx 1 oschema))))
+                           (L (map skel_tree wforest))
+            else true)
+    end in
+  (* ... or that entry is a PARENT under which a REDEFINES clause finds no unique sibling, while without the
+     66/77/88 entries every clause does (Spec/Dde.v redefines_ok): structure raised ValueError *)
+  let k8_raise :=
+    sx_eqb oforest (sx_forest (Err ValueError))
+    && negb (redefines_ok (espec (kept_list intended))) && redefines_ok (espec K) in
+  let good := layerA && (if k8 then good8 else if k7 then good7 else forest_ok && spec_ok && schema_ok && wf_ok) in
   (* model on the observed sentences *)
   let agree :=
     if res_ok_sx osent then
@@ -396,6 +448,12 @@ Definition judge (c : sx) : sx :=
          then (if res_ok_sx osent && entries_sim (map truncated_entry isx) observed then Some 5 else None)
     else if existsb onedigit_of_sx isx
          then (if sx_eqb oraw (sx_sentences (model_sentences text)) then Some 6 else None)
+    else if k8
+         (* a repaired forest (good) differs from the model, which keeps the first entry: still the known family, no finding *)
+         then (if good
+                  || (res_ok_sx oforest && match intended with e :: _ => first_root_is e oforest | [] => false end)
+                  || k8_raise
+               then Some 8 else None)
     else if k7
          (* a repaired tree (good) differs from the model, which raises: still the known family, no finding *)
          then (if good || sx_eqb oforest (sx_forest (Err ValueError)) then Some 7 else None)
@@ -414,4 +472,4 @@ Definition judge (c : sx) : sx :=
      end) + (if dom then 0 else 10) in
   verdict known good agree branch
     (L [of_bool layerA; of_bool forest_ok; of_bool spec_ok; of_bool schema_ok; of_bool wf_ok;
-        sx_forest mf; sx_schemas ms; of_bool k7]).
+        sx_forest mf; sx_schemas ms; of_bool k7; of_bool k8]).
